@@ -90,7 +90,8 @@ G4(e, subj) ==
     /\ subj.variant = "sais_noopt"
     /\ e.op = "panic" /\ e.in = "sa"
     /\ e.head = "index out of bounds: the len is 0 but th"
-    /\ ~(\A i \in 1..Len(T) : T[i] # 255)
+    (* 0xFF in the text itself, or (>= 256 distinct LMS substrings need >= 512 bytes) in the byte-named reduced text *)
+    /\ ~(\A i \in 1..Len(T) : T[i] # 255) \/ Len(T) >= 512
 KF4(e, subj) == (G4(e, subj) = TRUE) /\ Same
 
 (* guard (state predicate) and action of each deviation.  In KF mode a deviation whose guard     *)
